@@ -409,7 +409,40 @@ def run_history(w, hist_index: int) -> None:
                 pass
 
 
+def fixed_histories():
+    """Hand-written histories for orders of definition and decoration that random histories hit too rarely."""
+    def cls(name, bases, invs=()):
+        return {"name": name, "bases": list(bases), "dbc": True, "invs": list(invs), "class_body": [], "aliases": [],
+                "members": [{"name": "m_" + name[-1], "kind": "method", "async": False, "params": [prog.P("self"), prog.P("x")], "decos": []}]}
+
+    def inv(iid, check_on):
+        return {"id": iid, "check_on": check_on, "err": "instance", "self": True, "form": "def"}
+
+    for base_kind in CHECK_ONS:
+        for sub_kind in CHECK_ONS:
+            # the base gets its invariant only after the subclasses exist; then a subclass is decorated
+            yield ("base-decorated-after-subclasses", base_kind, sub_kind), [
+                cls("KA", []), cls("KB", ["KA"]), cls("KC", ["KA"]),
+                {"decorate_inv": {"cls": "KA", "inv": inv("ja", base_kind)}},
+                {"decorate_inv": {"cls": "KB", "inv": inv("jb", sub_kind)}},
+                cls("KD", ["KA"], [inv("jd", sub_kind)]),
+                {"decorate_inv": {"cls": "KC", "inv": inv("jc", sub_kind)}},
+            ]
+            # base with invariants of one kind only; subclasses decorated with the other kind, a sibling created afterwards
+            yield ("sibling-created-after-decoration", base_kind, sub_kind), [
+                cls("KA", [], [inv("ja", base_kind)]), cls("KL", ["KA"], [inv("jl", sub_kind)]),
+                cls("KR", ["KA"], [inv("jr", sub_kind)]), cls("KS", ["KA"]),
+                {"decorate_inv": {"cls": "KS", "inv": inv("js", sub_kind)}},
+            ]
+
+
 def run(w) -> None:
+    if w.shard == 0:
+        for meta, hist in fixed_histories():
+            w.count("histories")
+            w.count("fixed_histories")
+            w.fixed_meta = meta
+            replay({"history": hist, "fixed": list(meta)}, w)
     n = 20000 if w.tier == "thorough" else 800
     for i in range(n):
         if i % w.nshards != w.shard:
@@ -447,11 +480,14 @@ def replay(case, w) -> None:
             with open(path, "w") as fid:
                 fid.write(src)
             exec(compile(src, path, "exec"), module.__dict__)  # pylint: disable=exec-used
+            w.count("steps")
             for ent in entities:
                 if decoration_of(step) is not None and affected_by_decoration(decoration_of(step), ent, class_specs):
                     ent.lists = introspect(getattr(module, ent.name), observed_members(ent.spec), ent.is_class)
                     ent.behaviour = behaviour(hub, module, ent, ent.battery_ids)
                     continue
+                w.count("reobservations")
+                w.case(("replayed", str(case.get("fixed")), step_no, ent.name) if any(v for v in (ent.lists or {}).values()) else None)
                 now_lists = introspect(getattr(module, ent.name), observed_members(ent.spec), ent.is_class)
                 if now_lists != ent.lists:
                     changed = next(k for k in now_lists if now_lists[k] != ent.lists.get(k))
